@@ -244,6 +244,16 @@ func behaviour() string {
 type hist struct {
 	b       []*mocker.Builder
 	handles map[string]*handle
+	structs map[int]*mocker.CachedMethodMocker // `sm := b.Struct(x)` kept by the user (op K)
+	cur     *mocker.CachedMethodMocker         // set while an s* op runs: go through the kept struct mocker
+}
+
+// structM is the struct mocker an operation goes through: the kept one (s* ops) or a fresh b.Struct(x) lookup
+func (h *hist) structM(b *mocker.Builder) *mocker.CachedMethodMocker {
+	if h.cur != nil {
+		return h.cur
+	}
+	return b.Struct(&T{})
 }
 
 // handle is a mocker the user keeps in a variable: un is what ExportFunc / ExportMethod returned (nil for Func / Method)
@@ -266,11 +276,11 @@ func (h *hist) exported(b *mocker.Builder, via string, t *target) mocker.Exporte
 	case "f":
 		return b.Func(t.fn)
 	case "m":
-		return b.Struct(&T{}).Method(t.method)
+		return h.structM(b).Method(t.method)
 	case "e":
 		return b.ExportFunc(t.name).As(t.fn)
 	case "u":
-		return b.Struct(&T{}).ExportMethod(t.method).As(t.fn)
+		return h.structM(b).ExportMethod(t.method).As(t.fn)
 	case "v":
 		return b.Func(methodValue(t))
 	}
@@ -306,6 +316,25 @@ func (h *hist) step(toks []string) {
 		}
 		b.Reset()
 		return
+	}
+	if toks[0] == "K" {
+		if len(toks) != 2 {
+			panic("bad-op")
+		}
+		if h.structs == nil {
+			h.structs = map[int]*mocker.CachedMethodMocker{}
+		}
+		h.structs[bi] = b.Struct(&T{})
+		return
+	}
+	if len(toks[0]) == 2 && toks[0][0] == 's' {
+		// sa / sr / sw / sc / sk: the same as a / r / w / c / k, but through the kept struct mocker
+		if h.structs[bi] == nil || len(toks) < 3 || (toks[2] != "m" && toks[2] != "u") {
+			panic("bad-op")
+		}
+		h.cur = h.structs[bi]
+		defer func() { h.cur = nil }()
+		toks = append([]string{toks[0][1:]}, toks[1:]...)
 	}
 	want := map[string]int{"a": 5, "r": 5, "w": 5, "c": 4, "k": 4, "A": 5, "R": 5, "C": 4}[toks[0]]
 	if want == 0 || len(toks) < want || len(toks) > want+1 || (strings.Contains("ckARC", toks[0]) && len(toks) != want) {
@@ -353,7 +382,7 @@ func (h *hist) step(toks []string) {
 		case "e":
 			hd.un = b.ExportFunc(t.name)
 		case "u":
-			hd.un = b.Struct(&T{}).ExportMethod(t.method)
+			hd.un = h.structM(b).ExportMethod(t.method)
 		default:
 			hd.exp = h.exported(b, via, t)
 		}
@@ -413,7 +442,7 @@ func (h *hist) step(toks []string) {
 			}
 			m.Apply(cb)
 		case "u":
-			m := b.Struct(&T{}).ExportMethod(t.method)
+			m := h.structM(b).ExportMethod(t.method)
 			if origin != nil {
 				m = m.Origin(origin)
 			}
@@ -441,7 +470,7 @@ func (h *hist) step(toks []string) {
 		case "e":
 			b.ExportFunc(t.name).Cancel()
 		case "u":
-			b.Struct(&T{}).ExportMethod(t.method).Cancel()
+			h.structM(b).ExportMethod(t.method).Cancel()
 		default:
 			panic("bad-op")
 		}
